@@ -39,7 +39,7 @@ pub const UNICODE_WS: [char; 21] = [
     '\u{2009}', '\u{200A}', '\u{2028}', '\u{2029}', '\u{202F}', '\u{205F}', '\u{3000}', '\u{000B}', '\u{000C}',
 ];
 
-pub const COMMENT_BODIES: [&str; 20] = [
+pub const COMMENT_BODIES: [&str; 25] = [
     "",
     " plain comment",
     " #[derive(Debug)]",
@@ -60,6 +60,12 @@ pub const COMMENT_BODIES: [&str; 20] = [
     "\r$x @",
     " x\r#[",
     "\u{2028}struct \u{0085}enum",
+    // comments that look like something a tool might want to interpret
+    "/ outer doc comment",
+    "! inner doc comment",
+    " kiki: start Foo",
+    " @sha256 0000",
+    "/// #[derive(Clone)]",
 ];
 
 #[derive(Clone, Debug, Default)]
